@@ -368,6 +368,7 @@ func (e *Engine) runPath(solver *Solver, h *HarnessSpec, trace []Decision, concr
 		eng: e, solver: solver, harness: h.Fn, trace: trace, names: map[string]int{},
 		fuel: o.Fuel, globals: map[*ssa.Global]*value{}, initDone: map[*ssa.Package]bool{},
 		concreteInputs: concrete, status: "ok", tier: o.Tier,
+		dom: map[string]*byteDom{}, entangled: map[string]bool{},
 	}
 	if solver != nil {
 		solver.Push()
